@@ -131,6 +131,24 @@ func c01Sweep() []string {
 			}
 		}
 	}
+	// nested forcing: a lazy list is forced from inside a closure of another lazy list that is being forced, behind a
+	// let of that closure (whatever the forcing operation needs, e.g. a scratch stack, must not be the one in use)
+	inners := []string{".number((i, e) -> i + e)", ".combine((p, q) -> p + q)", ".iir(e -> e, (e, p) -> e + p)", ".map(e -> e + 1)", ".accept(e -> e > 0)", ".compact((p, q) -> p = q)", ".cross([1, 2], (p, q) -> p * q)"}
+	outers2 := []string{".number((j, x) -> let t = x + a; @I + t)", ".combine((u, v) -> let t = u + a; @I + t + v)", ".iir(x -> let t = x + a; @I + t, (x, p) -> let t = x + p; @I + t)",
+		".map(x -> let t = x + a; @I + t)", ".mapReduce(0, (s1, x) -> let t = x + s1; @I + t)"}
+	forces := []string{"[0]", ".size()", ".first()", ".sum()", ".eval().size()", ".reverse().first()", ".top(2).sum()", ".last()"}
+	for _, in := range inners {
+		for _, out := range outers2 {
+			for fi, f := range forces {
+				f2 := forces[(fi+3)%len(forces)]
+				if strings.Contains(out, "mapReduce") {
+					f2 = " + 0"
+				}
+				res = append(res, "let inner = [1, 2, 3, a + 4]"+in+"; let outer = [1, 2, 3]"+strings.ReplaceAll(out, "@I", "inner"+f)+"; outer"+f2,
+					"let inner = l.append(a)"+in+"; let outer = [1, 2, 3]"+strings.ReplaceAll(out, "@I", "inner[0]")+"; outer"+f)
+			}
+		}
+	}
 	// shadowing sweep: a name bound outside (let, closure parameter, func parameter, the argument itself), captured
 	// by a closure/func that binds it again (let after a use, parameter, let defined from the outer value), and used
 	// below that binding directly or from closures nested there (which capture the NEW binding)
@@ -307,6 +325,27 @@ func runC01(c *Ctx) {
 		add(src, 2)
 	}
 
+	// the text passed to throw reaches the catch handler (the one part of an error message the property compares): every
+	// context a thrown error travels through, optimizer off and on (the optimizer rebuilds nodes on the way)
+	{
+		thrower := "(if a > 9999 then 1 else throw(\"MARK\" + a))"
+		ctxs := []string{"@", "(@ * 2) * 3", "2 * @ * 3", "(2 * @) * 3", "@ + 1 + 2", "1 + @ + 2", "(1 + @) + 2", "[@][0]", "max(1, @)", "(y -> @ + y)(1)", "[1, 2].map(e -> @ + e).sum()", "{k: @}.k",
+			"if @ > 0 then 1 else 2", "l.mapReduce(0, (s1, e1) -> s1 + @)", "let q = @; q + 1", "func g(n) @ + n; g(1)", "[1, 2].accept(e -> @ > e).size()", "[3, 1].order(e -> @ + e).first()",
+			"m.put(\"z\", @).z", "0 - @", "(@ = 1) = true", "[1].reduce((p, q) -> p) + [@, 2].reduce((p, q) -> p + q)", "{f: w -> @ + w}.f(1)", "try @ catch e2 -> throw(e2)", "switch @ case 1 : 1 default 2"}
+		fgs := map[string]*value.FunctionGenerator{"optimizer off": newValueFG(false), "optimizer on": newValueFG(true)}
+		names, args := c01Args(c, 0)
+		for _, cx := range ctxs {
+			src := "try " + strings.ReplaceAll(cx, "@", thrower) + " catch e9 -> (\"MARK\" ~ e9)"
+			for mode, fg := range fgs {
+				out := evalOutcome(fg, src, names, args)
+				c.Case("throw-text|"+mode+"|"+src, true)
+				c.Count("throw-text:" + strings.SplitN(out, " ", 2)[0])
+				if out != "OK b1" {
+					c.Violation("thrown-text-lost", "the text passed to throw does not reach the catch handler ("+mode+")", map[string]any{"program": src, "outcome": out, "mode": mode})
+				}
+			}
+		}
+	}
 	var specFallback []*langCase
 	defer func() {
 		var reqs []string
